@@ -206,7 +206,7 @@ def run(chk):
     impl = vlib.build_impl("rel")
     chk.cov["trusted_base"] = TRUSTED
     chk.assumptions += ["samples are finite doubles (|x| <= DBL_MAX), weights are >= 0 (the library asserts it)",
-                        "fewer than 2^53 samples per summary",
+                        "the merged count stays below 2^63 (sums of counts do not wrap; a product of counts is modelled WITH C's wrap-around); (double)count is exact for the counts used (k*2^j), beyond 2^53 in general it is part of 'up to rounding'",
                         "skewness / kurtosis of constant data are undefined (0/0): the library returns NaN there, and the "
                         "generated definedness predicate is false exactly there (theorem kurtosis_undefined_iff_constant)"]
     known_ids = {k.get("id") for k in chk.known}
